@@ -17,9 +17,9 @@ REPO = "/repo"
 M = [
     ("C10", "prec-swap", "dissect/cstruct/expression.py", '"&": 2,', '"&": 4,'),
     ("C10", "right-assoc", "dissect/cstruct/expression.py", "return self.precedence_levels[o1] >= self.precedence_levels[o2]", "return self.precedence_levels[o1] > self.precedence_levels[o2]"),
-    ("C10", "ctx-after-consts", "dissect/cstruct/expression.py", "            elif current_token in context:\n                self.queue.append(int(context[current_token]))\n            elif current_token in self.cstruct.consts:\n                self.queue.append(int(self.cstruct.consts[current_token]))", "            elif current_token in self.cstruct.consts:\n                self.queue.append(int(self.cstruct.consts[current_token]))\n            elif current_token in context:\n                self.queue.append(int(context[current_token]))"),
+    ("C10", "ctx-after-consts", "dissect/cstruct/expression.py", "            elif current_token in context:\n                queue.append(int(context[current_token]))\n            elif current_token in self.cstruct.consts:\n                queue.append(int(self.cstruct.consts[current_token]))", "            elif current_token in self.cstruct.consts:\n                queue.append(int(self.cstruct.consts[current_token]))\n            elif current_token in context:\n                queue.append(int(context[current_token]))"),
     ("C10", "octal-dropped", "dissect/cstruct/expression.py", 'token = token[:1] + "o" + token[1:]', "token = token[1:]"),
-    ("C10", "stack-not-reset", "dissect/cstruct/expression.py", "        self.stack = []\n        self.queue = []\n        operators = set", "        operators = set"),
+    ("C10", "stack-not-reset", "dissect/cstruct/expression.py", "        stack = []\n        queue = []\n        operators = set", "        stack = self.stack\n        queue = self.queue\n        operators = set"),
     ("C01", "int-write-unsigned", "dissect/cstruct/types/int.py", "return stream.write(data.to_bytes(cls.size, ENDIANNESS_MAP[cls.cs.endian], signed=cls.signed))", "return stream.write((data & ((1 << (cls.size * 8)) - 1)).to_bytes(cls.size, ENDIANNESS_MAP[cls.cs.endian]))"),
     ("C01", "leb-sign-test", "dissect/cstruct/types/leb128.py", "if ((cls.signed and (data == 0 and byte & 0x40 == 0))", "if ((cls.signed and (data == 0 and byte & 0x20 == 0))"),
     ("C07", "array-size-check-off", "dissect/cstruct/types/base.py", "if not cls.dynamic and cls.num_entries != (actual_size := len(data)):", "if not cls.dynamic and cls.num_entries < (actual_size := len(data)):"),
@@ -37,7 +37,7 @@ M = [
     ("C04", "round-mask", "dissect/cstruct/types/structure.py", "                offset += -offset & (field.alignment - 1)\n\n            # The alignment of this struct", "                offset += -offset & (field.alignment - 1) if field.alignment != 8 else -offset & 3\n\n            # The alignment of this struct"),
     ("C04", "int24-align", "dissect/cstruct/cstruct.py", '"uint24": self._make_int_type("uint24", 3, False, alignment=4)', '"uint24": self._make_int_type("uint24", 3, False, alignment=2)'),
     ("C04", "union-tail-skipped", "dissect/cstruct/types/structure.py", "            size += -size & (alignment - 1)\n\n        return size, alignment", "            pass\n\n        return size, alignment"),
-    ("C04", "sizeof-alignment", "dissect/cstruct/expression.py", "self.queue.append(len(self.cstruct.resolve(tmp_expression[i + 2])))", "self.queue.append(self.cstruct.resolve(tmp_expression[i + 2]).alignment or 0)"),
+    ("C04", "sizeof-alignment", "dissect/cstruct/expression.py", "queue.append(len(self.cstruct.resolve(tmp_expression[i + 2])))", "queue.append(self.cstruct.resolve(tmp_expression[i + 2]).alignment or 0)"),
     ("C04", "array-align-total", "dissect/cstruct/cstruct.py", "return cast(type[Array], self._make_type(name, bases, size, alignment=type_.alignment, attrs=attrs))", "return cast(type[Array], self._make_type(name, bases, size, alignment=(size if size in (2, 4, 8) else type_.alignment), attrs=attrs))"),
     ("C07", "max0-dropped", "dissect/cstruct/types/base.py", "num = max(0, cls.num_entries.evaluate(context))", "num = cls.num_entries.evaluate(context)"),
     ("C07", "terminator-not-consumed", "dissect/cstruct/types/packed.py", "            if (value := fmt.unpack(data)[0]) == 0:\n                break", "            if (value := fmt.unpack(data)[0]) == 0:\n                stream.seek(-cls.size, 1)\n                break"),
@@ -62,7 +62,7 @@ M = [
     ("C05", "network-is-little", "dissect/cstruct/utils.py", '    "!": "big",', '    "!": "little",'),
     ("C05", "compiled-binds-endian", "dissect/cstruct/compiler.py", "unpack = f'data = _struct(cls.cs.endian, \"{fmt}\").unpack(buf)\\n'", "unpack = f'data = _struct(\"{self.cs.endian}\", \"{fmt}\").unpack(buf)\\n'"),
     ("C05", "leb-read-sign-bit", "dissect/cstruct/types/leb128.py", "        if cls.signed and b & 0x40 != 0:", "        if cls.signed and b & 0x20 != 0:"),
-    ("C05", "uint48-signed", "dissect/cstruct/cstruct.py", '"uint48": self._make_int_type("int48", 6, False, alignment=8)', '"uint48": self._make_int_type("int48", 6, True, alignment=8)'),
+    ("C05", "uint48-signed", "dissect/cstruct/cstruct.py", '"uint48": self._make_int_type("uint48", 6, False, alignment=8)', '"uint48": self._make_int_type("uint48", 6, True, alignment=8)'),
     ("C05", "wchar-map-network", "dissect/cstruct/types/wchar.py", '        "!": "utf-16-be",', '        "!": "utf-16-le",'),
     ("C05", "alias-u4-wrong", "dissect/cstruct/cstruct.py", '"u4": "uint32",', '"u4": "uint16",'),
     ("C05", "bitbuffer-freezes-endian", "dissect/cstruct/compiler.py", 'preamble += "bit_reader = BitBuffer(stream, cls.cs.endian)\\n"', 'preamble += f"bit_reader = BitBuffer(stream, \\"{self.cs.endian}\\")\\n"'),
@@ -167,6 +167,7 @@ def main():
             src = open(fp).read()
             if src.count(old) != 1:
                 results.append((prop, mid, "MUTATION-DOES-NOT-APPLY", 0))
+                print(f"{prop} {mid:28s} MUTATION-DOES-NOT-APPLY ({src.count(old)} matches)", flush=True)
                 continue
             open(fp, "w").write(src.replace(old, new))
             tests = ""
